@@ -43,3 +43,10 @@ Proof.
   - intros k Hk. apply checked_spec. auto.
   - apply checked_spec. auto.
 Qed.
+
+Lemma no_shadowed_submodule_l : no_shadow_b pkg_bindings submodule_files = true.
+Proof. vm_compute. reflexivity. Qed.
+
+Lemma from_import_history_independent_l : forall p n sub, In (p, n, sub) submodule_files ->
+  forall after, from_import (lookup_binding pkg_bindings p n) after sub = sub.
+Proof. exact (from_import_history_independent_gen pkg_bindings submodule_files no_shadowed_submodule_l). Qed.
